@@ -22,7 +22,9 @@ from . import core
 class Explorer(object):
 
     def __init__(self, scn, depth, prop, dedup=True, chunk=None, selfcheck=2,
-                 max_states=None, label=''):
+                 max_states=None, label='', lookahead=300):
+        self.lookahead = lookahead
+        self.lookahead_transitions = 0
         self.scn = scn
         self.depth = depth
         self.prop = prop
@@ -81,6 +83,7 @@ class Explorer(object):
                 out.extend(part)
             out.sort(key=lambda r: core.jdump(r[0]))
             nxt = []
+            dups = []
             lvl_states = 0
             for hist, ch, viol, obs in out:
                 self.transitions += 1
@@ -95,6 +98,7 @@ class Explorer(object):
                     continue
                 if self.dedup:
                     if ch in seen:
+                        dups.append(hist)
                         continue
                     seen[ch] = hist
                     res.sigs.add(ch)
@@ -104,8 +108,20 @@ class Explorer(object):
                 lvl_states += 1
                 nxt.append(hist)
             self.max_depth = d
+            # abstraction guard: histories that were merged into an already seen canonical state are not
+            # extended - but real objects can carry state the canonical form does not show.  The first
+            # `lookahead` merged histories of each level (in a fixed order) are therefore extended by ONE more
+            # operation and their successors checked (never added to the frontier).
+            if self.lookahead and dups and d < self.depth:
+                pick = dups[:self.lookahead]
+                size = max(1, len(pick) // (core.jobs() * 2) + 1)
+                for part in core.pmap(_expand, [pick[i:i + size] for i in range(0, len(pick), size)]):
+                    for hist, ch, viol, obs in part:
+                        self.lookahead_transitions += 1
+                        for v in viol:
+                            self._record(res, hist, v)
             self.levels.append(dict(depth=d, transitions=len(out), new_states=lvl_states,
-                                    wall_s=round(time.time() - t0, 1)))
+                                    merged=len(dups), wall_s=round(time.time() - t0, 1)))
             frontier = nxt
             if self.max_states and self.states > self.max_states:
                 self.cap_hit = True
@@ -176,6 +192,7 @@ class Explorer(object):
                     frontier_closed=self.frontier_closed, cap_hit=self.cap_hit,
                     pruned_at_violating_states=self.pruned,
                     distinct_outcomes=len(self.outcomes), levels=self.levels,
+                    lookahead_per_level=self.lookahead, lookahead_transitions=self.lookahead_transitions,
                     dedup=self.dedup)
 
 
